@@ -225,10 +225,15 @@ CHECKS["C20"] = {
                     "expected element i is computed from representation i alone (and the fault table)"],
     "harnesses": [
         {"probe": "fed", "harness": "Harness_C20_entities", "setup": "Setup_C20_entities", "reach": ["c20.compared"], "workers": 12, "sched": "first",
-         "configs_quick": ["fed_single"], "configs_thorough": ["fed_single", "fed_follow", "fed_wl2"],
+         "configs_quick": ["fed_single"], "configs_thorough": ["fed_single", "fed_follow", "fed_wl2", "fed_explicit", "fed_computed"],
          "quick": {"params": {"maxreps": 2, "budget": 1}, "sample_models": 40, "sample_every": 17},
          "thorough": {"params": {"maxreps": 3, "budget": 1}, "sample_models": 120, "sample_every": 211},
          "what": "generated __resolve_entities on lists of 0..2 (quick) / 0..3 (thorough) representations over 11 shapes with at most one failing lookup (error / panic)"},
+        {"probe": "fed", "harness": "Harness_C20_entities", "setup": "Setup_C20_entities", "reach": ["c20.compared"], "workers": 12, "sched": "first", "tag": "-requires",
+         "configs_quick": ["fed_explicit", "fed_computed"], "configs_thorough": ["fed_explicit"],
+         "quick": {"params": {"maxreps": 3, "budget": 1, "shapes": 4, "requires": 1}, "sample_models": 20, "sample_every": 23},
+         "thorough": {"params": {"maxreps": 3, "budget": 2, "shapes": 4, "requires": 1}, "sample_models": 20, "sample_every": 97},
+         "what": "@requires under explicit_requires (user populator called with the entity's own representation) and computed_requires (the requiring field's resolver receives the representation at the entity's result index): lists of 0..3 representations over {plain entity, batch entity, requiring entity, unknown type}, one [two] failing lookups"},
         {"probe": "fed", "harness": "Harness_C20_entities", "setup": "Setup_C20_entities", "reach": ["c20.compared"], "workers": 12, "race": True, "tag": "-sched",
          "configs_quick": ["fed_single"], "configs_thorough": ["fed_single", "fed_wl2"], "sched_confirm": True,
          "quick": {"params": {"maxreps": 3, "budget": 1, "shapes": 3, "gated": 1}, "sample_models": 10, "sample_every": 97},
